@@ -14,11 +14,24 @@ Fil(line) ==
   ELSE IF "s" \in DOMAIN line
   THEN << [k |-> "SP", n |-> 1], line.s >> \o (IF line.z THEN << [k |-> "SP", n |-> 1], [k |-> "TXT", a |-> <<"z">>] >> ELSE <<>>)
   ELSE <<>>
+\* the unbalanced openers: '' / ''' / <span> / <div> before the word; a table start, a cell start and the word
+OpenKinds == {"IT", "BO", "SPAN", "DIV", "TBL"}
+OpenToks(c, w) ==
+  CASE c = "IT"   -> << [k |-> "IT"], w >>
+    [] c = "BO"   -> << [k |-> "BO"], w >>
+    [] c = "SPAN" -> << FixedTok("SPAN"), w >>
+    [] c = "DIV"  -> << FixedTok("DIV"), w >>
+    [] c = "TBL"  -> << [k |-> "TS"], [k |-> "NL"], [k |-> "VB"], w >>
 Tokens(line, i) ==
   LET w == [k |-> "TXT", a |-> <<W(i)>>] IN
   CASE line.t = "H" -> << [k |-> "HS", l |-> line.l], w >> \o Fil(line) \o << [k |-> "HE", l |-> line.l], [k |-> "NL"] >>
     [] line.t = "L" -> << [k |-> "LP", p |-> line.p], [k |-> "SP", n |-> 1], w >> \o Fil(line) \o << [k |-> "NL"] >>
     [] line.t = "P" -> << w >> \o Fil(line) \o << [k |-> "NL"] >>
+    \* an indented line: the blank at the line start opens (or continues) a preformatted block, which is still
+    \* open when the next line arrives
+    [] line.t = "I" -> << [k |-> "SP", n |-> 1], w >> \o Fil(line) \o << [k |-> "NL"] >>
+    \* a line that opens a construct and leaves it open (unbalanced; outside the property)
+    [] line.t = "O" -> OpenToks(line.c, w) \o << [k |-> "NL"] >>
     [] line.t = "R" -> << [k |-> "HR"], [k |-> "NL"] >>
     [] line.t = "B" -> << [k |-> "NL"] >>
 
@@ -53,6 +66,10 @@ Tokens(line, i) ==
 (*   "BeglineFlagNotCounted"  leaving ANY construct switches the line-start   *)
 (*                            machinery on again (a flag instead of a counter)*)
 ModelDevs == {"BeglineFlagNotCounted"}
+\* Model deviation of the heading loop (Parser.tla; Demo_ParserRef_firsthead.cfg): the popping loop of
+\* subtitle_start_fn is entered only while a SECTION is open, so that a block that is still open when the FIRST
+\* heading of the document arrives (a preformatted block: an indented line directly before it) is not closed
+NestDevs == {"TitleLoopNeedsSection"}
 ArgKinds == {"LINK", "TEMPLATE", "TEMPLATE_ARG", "PARSER_FN", "URL"}      \* HAVE_ARGS_KIND_FLAGS
 FillKind(m) == CASE m = "T" -> "TEMPLATE" [] m = "A" -> "TEMPLATE_ARG" [] m = "L" -> "LINK" [] m = "E" -> "URL"
 
